@@ -131,16 +131,23 @@ def instantiate(cls, spec):
         return None
 
 
+PRINT_ERROR = [""]
+
+
 def print_text(module, generic: bool = True) -> str | None:
     from xdsl.printer import Printer
 
+    PRINT_ERROR[0] = ""
     try:
         with time_limit(30.0):
             buf = io.StringIO()
             Printer(stream=buf, print_generic_format=generic).print_op(module)
             return buf.getvalue()
-    except BaseException:  # noqa: BLE001
-        return None
+    except Hang:
+        PRINT_ERROR[0] = "printing did not return within 30 s"
+    except BaseException as e:  # noqa: BLE001
+        PRINT_ERROR[0] = f"printing raised {type(e).__name__}: {str(e)[:200]}"
+    return None
 
 
 def parses(text: str) -> tuple[bool, str]:
@@ -168,18 +175,19 @@ def observe(module, pass_obj, xctx, before_text: str) -> dict[str, Any]:
     except Hang:
         return {"outcome": "hang"}
     except BaseException as e:  # noqa: BLE001   any exception counts as reported failure
-        if isinstance(e, (KeyboardInterrupt, SystemExit, MemoryError)):
+        if isinstance(e, (KeyboardInterrupt, SystemExit)):
             raise
-        return {"outcome": "raised", "error": f"{type(e).__name__}: {str(e)[:120]}"}
+        return {"outcome": "raised", "error": f"{type(e).__name__}: {str(e)[:120]}"}   # incl. MemoryError under the worker's address-space limit
     ev: dict[str, Any] = {"outcome": "ok", "verified": 1, "reparsed": 1, "examined": 0, "root": 0, "c": {"ops": [], "blocks": [], "regions": [], "vals": []}}
     try:
         with time_limit(30.0):
             module.verify()
     except Hang:
-        ev["verified"], ev["verify_error"] = 0, "verify() did not return within 30 s"
+        ev["undecided"] = "verify() did not return within 30 s"
     except BaseException as e:  # noqa: BLE001
         ev["verified"], ev["verify_error"] = 0, f"{type(e).__name__}: {str(e)[:400]}"
     text = print_text(module)
+    perr = PRINT_ERROR[0]
     ev["text"] = text
     if text is not None and text == before_text and ev["verified"]:
         ev["unchanged"] = 1     # same text as the (verified, re-parseable) input: nothing new to examine
@@ -196,11 +204,15 @@ def observe(module, pass_obj, xctx, before_text: str) -> dict[str, Any]:
         except Exception as e:  # noqa: BLE001
             ev["project_error"] = f"{type(e).__name__}: {str(e)[:120]}"
     if ev["verified"]:
-        if text is None:
-            ev["reparsed"], ev["reparse_error"] = 0, "printing the module raised or did not return"
+        if text is None and "did not return" in perr:
+            ev["undecided"] = perr
+        elif text is None:
+            ev["reparsed"], ev["reparse_error"] = 0, perr
         else:
             ok, err = parses(text)
-            if not ok:
+            if not ok and "did not return" in err:
+                ev["undecided"] = err
+            elif not ok:
                 ev["reparsed"], ev["reparse_error"] = 0, err
             else:
                 ctext = print_text(module, generic=False)
@@ -220,14 +232,57 @@ def signature(clause: str, detail: str) -> str:
     msg = ""
     if lines:
         # parse errors: the last line carries the message; verify errors: the first
-        msg = lines[-1] if clause == "PrintedFormParsesBack" else lines[0]
+        msg = lines[-1] if clause == "PrintedFormParsesBack" else " / ".join(lines[:2])
     msg = re.sub(r"<unknown>:\d+:\d+", "", msg)
     msg = re.sub(r"%[\w.$-]+", "%v", msg)
     msg = re.sub(r"\^[\w.$-]+", "^b", msg)
     msg = re.sub(r"@[\w.$-]+", "@s", msg)
     msg = re.sub(r"'[^']*'|\"[^\"]*\"", "'..'", msg)
     msg = re.sub(r"\d+", "N", msg)
-    return (clause + ": " + msg.strip())[:160]
+    return (clause + ": " + msg.strip())[:200]
+
+
+def idiom_family() -> list[str]:
+    out = []
+    bins = ["addi", "subi", "muli", "andi", "ori", "xori", "shli", "shrsi", "shrui", "divsi", "divui", "remsi", "remui", "minsi", "maxsi", "minui", "maxui"]
+    for t in ("i32", "index", "i1", "i64"):
+        for op in bins:
+            for c in (0, 1, -1, 2):
+                if t == "i1" and c not in (0, 1):
+                    continue
+                for side in (0, 1):
+                    a, b = ("%c", "%x") if side == 0 else ("%x", "%c")
+                    out.append(f"func.func @f(%x : {t}, %y : {t}) -> {t} {{\n  %c = arith.constant {c} : {t}\n  %r = arith.{op} {a}, {b} : {t}\n  %s = arith.addi %r, %y : {t}\n  func.return %s : {t}\n}}")
+            out.append(f"func.func @f(%x : {t}) -> {t} {{\n  %r = arith.{op} %x, %x : {t}\n  func.return %r : {t}\n}}")
+        for (a, b) in ((1, 0), (0, 1), (1, 1), (0, 0), (2, 3)):
+            if t == "i1" and (a > 1 or b > 1):
+                continue
+            out.append(f"func.func @f(%p : i1, %y : {t}) -> {t} {{\n  %a = arith.constant {a} : {t}\n  %b = arith.constant {b} : {t}\n  %s = arith.select %p, %a, %b : {t}\n"
+                       f"  %r = arith.addi %s, %y : {t}\n  func.return %r : {t}\n}}")
+            out.append(f"func.func @f(%u : {t}, %v : {t}) -> {t} {{\n  %p = arith.cmpi slt, %u, %v : {t}\n  %a = arith.constant {a} : {t}\n  %b = arith.constant {b} : {t}\n"
+                       f"  %s = arith.select %p, %a, %b : {t}\n  %r = arith.muli %s, %u : {t}\n  func.return %r : {t}\n}}")
+        for pred in ("eq", "ne", "slt", "sle", "ult", "uge"):
+            out.append(f"func.func @f(%x : {t}) -> i1 {{\n  %r = arith.cmpi {pred}, %x, %x : {t}\n  func.return %r : i1\n}}")
+        out.append(f"func.func @f(%p : i1, %x : {t}) -> {t} {{\n  %r = arith.select %p, %x, %x : {t}\n  func.return %r : {t}\n}}")
+        # the same pure expression in sibling regions / in a region and after it / loop invariant
+        for op in ("addi", "muli", "xori"):
+            out.append(f"func.func @f(%p : i1, %x : {t}, %y : {t}) -> {t} {{\n  %r = scf.if %p -> ({t}) {{\n    %a = arith.{op} %x, %y : {t}\n    scf.yield %a : {t}\n  }} else {{\n"
+                       f"    %b = arith.{op} %x, %y : {t}\n    %c = arith.subi %b, %x : {t}\n    scf.yield %c : {t}\n  }}\n  func.return %r : {t}\n}}")
+            out.append(f"func.func @f(%p : i1, %x : {t}, %y : {t}) -> {t} {{\n  %r = scf.if %p -> ({t}) {{\n    %a = arith.{op} %x, %y : {t}\n    scf.yield %a : {t}\n  }} else {{\n"
+                       f"    scf.yield %x : {t}\n  }}\n  %b = arith.{op} %x, %y : {t}\n  %s = arith.addi %r, %b : {t}\n  func.return %s : {t}\n}}")
+            out.append(f"func.func @f(%x : {t}, %y : {t}) -> {t} {{\n  %lb = arith.constant 0 : index\n  %ub = arith.constant 4 : index\n  %st = arith.constant 1 : index\n"
+                       f"  %r = scf.for %i = %lb to %ub step %st iter_args(%acc = %x) -> ({t}) {{\n    %inv = arith.{op} %x, %y : {t}\n    %n = arith.addi %acc, %inv : {t}\n    scf.yield %n : {t}\n  }}\n"
+                       f"  func.return %r : {t}\n}}")
+        out.append(f"func.func @f(%k : index, %x : {t}, %y : {t}) -> {t} {{\n  %r = scf.index_switch %k -> {t}\n  case 0 {{\n    %a = arith.addi %x, %y : {t}\n    scf.yield %a : {t}\n  }}\n"
+                   f"  case 1 {{\n    %b = arith.addi %x, %y : {t}\n    scf.yield %b : {t}\n  }}\n  default {{\n    %c = arith.addi %x, %y : {t}\n    scf.yield %c : {t}\n  }}\n  func.return %r : {t}\n}}")
+    return out
+
+
+def _limit_memory():
+    import resource
+
+    lim = 6 * 1024 ** 3     # a runaway pass fails with MemoryError inside its worker instead of taking the machine down
+    resource.setrlimit(resource.RLIMIT_AS, (lim, lim))
 
 
 def run_history(task):
@@ -265,6 +320,9 @@ def run_history(task):
         bump(ev["outcome"])
         if ev.get("unchanged"):
             bump("unchanged")
+        if ev.get("undecided"):
+            bump("undecided_timeout")
+            out["diverge"].append(("post-state not decided: " + ev["undecided"], {"pass_name": pname, "input": name}))
         if ev.get("custom_reparse_error"):
             bump("custom_format_only_reparse_failures")
             out["diverge"].append(("output parses back in generic form but not in custom form (custom formats are C05: not applicable)",
@@ -303,7 +361,7 @@ def run(ctx: Ctx):
                     seen_specs[s.name].setdefault(str(s), s)
     tasks: list[tuple] = []
     # 1. every pass on the inputs written for it, through the RUN pipeline pass by pass
-    own_budget = 2 if q else 10**9
+    own_budget = 10**9
     own_count: dict[str, int] = {}
     for name, chunk, pipes in index:
         for p in pipes:
@@ -318,10 +376,10 @@ def run(ctx: Ctx):
     pool = [(n, c) for (n, c, _p) in index if len(c) < 12000]
     names = sorted(classes)
     if q:
-        for k in range(900):
+        for k in range(20000):
             pname = names[k % len(names)]
             name, chunk = rng.choice(pool)
-            opts = list(seen_specs[pname].values())
+            opts = list(seen_specs[pname].values())[:4]
             spec = rng.choice(opts) if opts and rng.random() < 0.5 else None
             tasks.append((name, chunk, [(pname, spec)], "foreign input"))
     else:
@@ -337,12 +395,24 @@ def run(ctx: Ctx):
                               "scf-for-loop-flatten", "control-flow-hoist", "test-constant-folding", "lift-arith-to-linalg",
                               "arith-add-fastmath", "convert-arith-to-riscv", "convert-func-to-riscv-func", "function-persist-arg-names",
                               "convert-scf-to-riscv-scf", "convert-arith-to-x86", "convert-func-to-x86-func", "reconcile-unrealized-casts") if p in classes]
-    for k in range(60 if q else 3000):
+    for k in range(400 if q else 4000):
         prng = ctx.rng(f"gen{k}")
-        text, _w, _r = progs.gen_program(prng, allow=progs.INTERP_OPS, control=prng.choice(["none", "scf", "cf", "scf"]))
+        text, _w, _r = progs.gen_program(prng, allow=progs.INTERP_OPS, control=prng.choice(["none", "scf", "cf", "scf"]), select=prng.random() < 0.5,
+                                         effects=prng.random() < 0.3)
         plan = [(prng.choice(gen_passes), None) for _ in range(prng.choice([1, 2, 3]))]
         tasks.append((f"generated#{k}", text, plan, "generated program"))
-    with mp.get_context("fork").Pool(16, maxtasksperchild=400) as poolx:
+    # 3b. idiom family: the shapes generic rewrites look for (constants 0/1/-1/2 on either side, equal operands, bool-to-int selects,
+    #     the same pure expression in sibling regions, loop-invariant code), each through every generic pass
+    generic = [p for p in ("canonicalize", "cse", "dce", "licm", "constant-fold-interp", "convert-scf-to-cf", "control-flow-hoist", "test-constant-folding",
+                           "scf-for-loop-range-folding", "scf-for-loop-flatten", "lift-arith-to-linalg", "arith-add-fastmath") if p in classes]
+    fam = idiom_family()
+    frng = ctx.rng("idioms")
+    if q:
+        fam = frng.sample(fam, min(len(fam), 500))
+    for k, text in enumerate(fam):
+        for pname in generic if not q else frng.sample(generic, 3) + ["canonicalize", "cse"]:
+            tasks.append((f"idiom#{k}", text, [(pname, None)], "idiom family"))
+    with mp.get_context("fork").Pool(16, maxtasksperchild=400, initializer=_limit_memory) as poolx:
         results = poolx.map(run_history, tasks, chunksize=8)
     # 4. schedule_space instances on a sample (in-process: instances are not picklable in general)
     n_sched = 0
@@ -395,7 +465,7 @@ def run(ctx: Ctx):
             continue
         seen.add((m["pass"], sig))
         ctx.violate(f"pass {m['pass']}{{{m['options']}}} on {m['input']} ({h['kind']}{', after ' + ','.join(before) if before else ''}) returned normally but: {clause} {detail}",
-                    {"clause": clause, "pass": m["pass"], "options": m["options"], "input": m["input"], "kind": h["kind"], "after_passes": before,
+                    {"clause": clause, "pass": m["pass"], "pass_clause": m["pass"] + " / " + clause, "options": m["options"], "input": m["input"], "kind": h["kind"], "after_passes": before,
                      "signature": sig, "detail": detail[:400], "chunk": h["chunk"][:3000]}, clause=clause)
     applications = sum(len(h["events"]) for h in histories)
     ok_passes = {m["pass"] for h in histories for m in h["metas"] if m["ok"]}
@@ -405,8 +475,8 @@ def run(ctx: Ctx):
                          "outcomes": outcome_stats, "histories_judged_by_TLC": len(judged),
                          "post_states_structure_examined_by_TLC": sum(1 for h in judged for e in h["events"] if e.get("examined")),
                          "judge_states": res.states,
-                         "rule": "own inputs: RUN-line pipelines applied pass by pass (quick: first 2 per pass); pass x input: thorough = every registered pass x every corpus chunk "
-                                 "< 12 kB x (default options + <= 4 option sets seen in RUN lines), quick = 900 seeded samples of it; generated func/arith/scf/cf programs through "
+                         "rule": "own inputs: RUN-line pipelines applied pass by pass (all of them); pass x input: thorough = every registered pass x every corpus chunk "
+                                 "< 12 kB x (default options + <= 4 option sets seen in RUN lines), quick = 20000 seeded samples of it; generated func/arith/scf/cf programs through "
                                  "random 1-3 pass pipelines; distinct = distinct (pass, options, input)"})
     ctx.coverage["passes_never_returning_normally"] = sorted(set(classes) - ok_passes)
     if histories:
@@ -417,4 +487,4 @@ def run(ctx: Ctx):
                         "verified, re-parseable input's is not re-examined",
                         "any exception is reported failure; a pass that does not return within 30 s is a divergence, not a violation",
                         "inputs are corpus chunks that parse with registered ops, verify, and themselves print and re-parse",
-                        "known findings are keyed by (pass, clause, diagnostic with names/numbers removed): one defect class of one pass"]
+                        "known findings are keyed by (pass, failing clause); the diagnostics seen are listed in the finding"]
